@@ -80,6 +80,8 @@ pub use Outcome::*;
 
 pub struct Cx<'a, F: Family> {
     pub slots: &'a mut [Option<Slot<F>>],
+    /// read-only slots shared by all threads of the parallel section (empty elsewhere)
+    pub shared: &'a [Option<Slot<F>>],
     pub base: usize,
     pub env: &'a Env<F>,
     pub par: bool,
@@ -282,6 +284,7 @@ pub struct OpReport {
 
 pub fn exec_op<F: Family>(
     slots: &mut [Option<Slot<F>>],
+    shared: &[Option<Slot<F>>],
     base: usize,
     env: &Env<F>,
     par: bool,
@@ -313,7 +316,7 @@ pub fn exec_op<F: Family>(
         }
     }
     crate::context::set_fams(t, ctx_f);
-    let mut cx = Cx { slots, base, env, par, t, mark, touched: Vec::new() };
+    let mut cx = Cx { slots, shared, base, env, par, t, mark, touched: Vec::new() };
     let out = crate::exec::dispatch(&mut cx, op);
     let touched = std::mem::take(&mut cx.touched);
     if opf != 0 {
